@@ -189,6 +189,11 @@ func implCompress(f []string, o *oracleSink) string {
 			}
 			return "err ; " + canary
 		case err != nil:
+			// a positive count is what callers that ignore the error (the frame layer does) take for a block
+			if n > 0 && n <= dl {
+				o.ask("strict", "SV "+hx(dst[:n]), "true")
+				o.ask("rt", fmt.Sprintf("SD %d - %s", len(src), hx(dst[:n])), fmt.Sprintf("ok %d %d", len(src), fnv(src)))
+			}
 			return fmt.Sprintf("err-with-count %d ; %s", n, canary)
 		case n == 0:
 			if dl >= bound {
